@@ -1,7 +1,9 @@
 /-
-  hint_object — internal/ast/compiler/hint_object.go.  For a matching object every configured
-  hint is written with `object.Type.Hints[hint] = val`: a Go panic when the map is nil (types
-  that came from a YAML `as:` without `hints`) and at least one hint is configured.
+  hint_object — internal/ast/compiler/hint_object.go.  For a matching object a nil `Hints` map
+  (types that came from a YAML `as:` without `hints`) is first replaced by a fresh one (fix
+  d683cb9 in /repo), then every configured hint is written with `object.Type.Hints[hint] = val`.
+  Before that fix the write into the nil map was a Go panic: `runPreFix` keeps that behaviour as
+  a checked statement.
   `Meta.hints` is the key-sorted entry list of the Go map (that is how VIR prints it), so a map
   write is an ordered insert/overwrite.
 -/
@@ -23,7 +25,7 @@ def hintSet (k : String) (v : Val) : List (String × Val) → List (String × Va
     else (k', v') :: hintSet k v t
 
 def setHints (p : Params) (m : Meta) : Meta :=
-  { m with hints := p.hints.foldl (fun hs e => hintSet e.1 e.2 hs) m.hints }
+  { m with hints := p.hints.foldl (fun hs e => hintSet e.1 e.2 hs) m.nonNilHints.hints }
 
 /-- a struct generated from a disjunction keeps that disjunction as the VALUE of one of its
     hints (`gen`/`genInfo` in the model); overwriting that hint drops the payload -/
@@ -37,7 +39,10 @@ def setTyHints (p : Params) (t : Ty) : Ty :=
 def onObj (p : Params) (o : Obj) : Obj :=
   if p.object.matchesObj o then { o with ty := setTyHints p o.ty } else o
 
-def objFail (p : Params) (o : Obj) : Option Failure :=
+def objFail (_ : Params) (_ : Obj) : Option Failure := none
+
+/-- before fix d683cb9: writing a configured hint into a nil map panicked -/
+def objFailPreFix (p : Params) (o : Obj) : Option Failure :=
   if p.object.matchesObj o && !p.hints.isEmpty && o.ty.getMeta.hintsNil then some .panic else none
 
 def apply (p : Params) (S : Schemas) : Schemas := S.map (visitSchema id (fun _ => onObj p))
@@ -46,5 +51,12 @@ def fail? (p : Params) (S : Schemas) : Option Failure :=
   firstFail (visitSchemaFail (walkFail []) (objFail p)) S
 
 def run (p : Params) (S : Schemas) : Outcome Schemas := mkRun (fail? p S) (apply p S)
+
+def failPreFix? (p : Params) (S : Schemas) : Option Failure :=
+  firstFail (visitSchemaFail (walkFail []) (objFailPreFix p)) S
+
+/-- `Process` as it was before fix d683cb9 (same result when it does not panic, except that an
+    untouched nil map stayed nil, which VIR does not show) -/
+def runPreFix (p : Params) (S : Schemas) : Outcome Schemas := mkRun (failPreFix? p S) (apply p S)
 
 end Cog.Xform.HintObject
